@@ -1,0 +1,86 @@
+//go:build verif
+
+package mergeset
+
+import "fmt"
+
+// Accessors for the C13 check of /verif ("dropping removes exactly what was named, for every
+// read, for good"). Add-only, compiled only with -tags verif. Nothing here changes behaviour
+// of the table:
+//   - VerifParts lists the parts of the table in table order with their items and the two
+//     flags a part carries (being merged, being purged of deleted tsids);
+//   - VerifBeginMerge is the first half of a background merge (the mergers pick parts and set
+//     isInMerge on them under partsLock), the function it returns is the second half
+//     (mergeParts); VerifMergeParts runs both halves at once. With the background mergers
+//     stopped (StopMergeAndFlusher) a history decides where merges happen and what else runs
+//     between the two halves.
+
+// VerifPart is one part of the table.
+type VerifPart struct {
+	Path       string
+	Items      [][]byte
+	InMerge    bool
+	DeleteMark bool // isDeleteTsids
+	InMemory   bool
+}
+
+// VerifParts returns a copy of the items of every part, in the order of tb.parts.
+func (tb *Table) VerifParts() ([]VerifPart, error) {
+	pws := tb.getParts(nil)
+	defer tb.putParts(pws)
+	tb.partsLock.Lock()
+	flags := make([][2]bool, len(pws))
+	for i, pw := range pws {
+		flags[i] = [2]bool{pw.isInMerge, pw.isDeleteTsids}
+	}
+	tb.partsLock.Unlock()
+	out := make([]VerifPart, 0, len(pws))
+	for i, pw := range pws {
+		vp := VerifPart{Path: pw.p.path, InMerge: flags[i][0], DeleteMark: flags[i][1], InMemory: pw.mp != nil}
+		var ps partSearch
+		ps.Init(pw.p)
+		ps.Seek(pw.p.ph.firstItem)
+		for ps.NextItem() {
+			vp.Items = append(vp.Items, append([]byte(nil), ps.Item...))
+		}
+		if err := ps.Error(); err != nil {
+			return nil, fmt.Errorf("part %q: %w", pw.p.path, err)
+		}
+		out = append(out, vp)
+	}
+	return out, nil
+}
+
+// VerifBeginMerge does what a background merger does when it has chosen the parts at the given
+// positions of tb.parts: it sets isInMerge on them under partsLock. Parts that are already
+// being merged or carry the purge mark are left out, as getPartsToMerge / appendPartsToMerge
+// leave them out. It returns how many parts were taken and the rest of the merge
+// (mergeParts); finish must be called exactly once if n > 0.
+func (tb *Table) VerifBeginMerge(positions []int) (n int, finish func() error) {
+	var pws []*partWrapper
+	tb.partsLock.Lock()
+	seen := map[int]bool{}
+	for _, i := range positions {
+		if i < 0 || i >= len(tb.parts) || seen[i] {
+			continue
+		}
+		seen[i] = true
+		pw := tb.parts[i]
+		if pw.isInMerge || pw.isDeleteTsids {
+			continue
+		}
+		pw.isInMerge = true
+		pws = append(pws, pw)
+	}
+	tb.partsLock.Unlock()
+	if len(pws) == 0 {
+		return 0, func() error { return nil }
+	}
+	return len(pws), func() error { return tb.mergeParts(pws, nil, false) }
+}
+
+// VerifMergeParts merges the parts at the given positions of tb.parts into one part.
+func (tb *Table) VerifMergeParts(positions []int) (int, error) {
+	n, finish := tb.VerifBeginMerge(positions)
+	return n, finish()
+}
